@@ -109,6 +109,10 @@ func (p *AV1Payloader) Payload(mtu uint16, payload []byte) (payloads [][]byte) {
 				currentPacketOBUHeader = nil
 			}
 		}
+		if obuHeader.ExtensionHeader != nil {
+			// this OBU opens the packet it goes into: later OBUs are compared with its layer ids
+			currentPacketOBUHeader = obuHeader.ExtensionHeader
+		}
 
 		// The temporal delimiter OBU, if present, SHOULD be removed when transmitting,
 		// and MUST be ignored by receivers. Tile list OBUs are not supported.
